@@ -292,12 +292,21 @@ def run(res, tier):
                key='HANDOFF-ATOMIC|%s|thread-limit' % f.q,
                message='DispatchPendingMessagesUnsafe creates a thread under `%s`: a saturated pool grows to _maxThreadCount + 1 threads, so one client more than the limit is handled in parallel' % n.text(60))
     f = fx.fn1(TP + '::Shutdown')
-    clr = [c for c in f.walk() if c['k'] == 'CXXMemberCallExpr' and (c.get('q') or '').endswith('::Clear') and c.receiver() is not None and A.strip_casts(c.receiver()).get('n') == '_waitingForCompletion']
-    nts = [c for c in f.walk() if c.is_call() and (c.get('q') or '').endswith('WaitCondition::Notify')]
+    from msa import ip as IP2
+    # Shutdown and the private member(s) its tail may have been split into (msa/ip.py): the part that holds the Notify() loop is judged where it is
+    sd_scope = [g_ for g_ in IP2.scope(fx, f, '^' + TP + '::(?!ShutdownThreadsInTableWithoutDeadlocking$)')]
+    is_wclr = lambda c: c['k'] == 'CXXMemberCallExpr' and (c.get('q') or '').endswith('::Clear') and c.receiver() is not None and A.strip_casts(c.receiver()).get('n') == '_waitingForCompletion'
+    is_nt = lambda c: c.is_call() and (c.get('q') or '').endswith('WaitCondition::Notify')
+    for g_ in sd_scope:
+        if any(is_wclr(c) for c in g_.walk()) and any(is_nt(c) for c in g_.walk()):
+            f = g_
+            break
+    clr = [c for c in f.walk() if is_wclr(c)]
+    nts = [c for c in f.walk() if is_nt(c)]
     if not clr or not nts:
         raise AnalysisBroken('UNREGISTER: Shutdown: _waitingForCompletion.Clear() / Notify() not found')
     bad = any(P.pos_of(f, c_) and P.pos_of(f, n_) and ((P.pos_of(f, c_)[0] == P.pos_of(f, n_)[0] and P.pos_of(f, c_)[1] < P.pos_of(f, n_)[1]) or C.can_reach(f, P.pos_of(f, c_), set([P.pos_of(f, n_)]))) for c_ in clr for n_ in nts)
-    res.ob('UNREGISTER', f.where(clr[0]), 'Shutdown notifies the clients blocked in UnregisterClient before it clears their table', not bad, function=f.q, key='UNREGISTER|%s|notify-before-clear' % f.q,
+    res.ob('UNREGISTER', f.where(clr[0]), 'Shutdown notifies the clients blocked in UnregisterClient before it clears their table', not bad, function=f.q, key='UNREGISTER|%s::Shutdown|notify-before-clear' % TP,
            message='ThreadPool::Shutdown clears _waitingForCompletion before the loop that notifies its entries: the loop runs over an empty table and a thread blocked in UnregisterClient() hangs forever')
     g = [h for h in fx.funcs.values() if h.full and h.q.endswith('ThreadPoolThread::MessageReceivedFromOwner')]
     if not g:
@@ -345,7 +354,7 @@ def run(res, tier):
     # ---------------------------------------------------------------------------------- SHUTDOWN-EMPTIES: nothing a waiter tests is left behind
     fsd = fx.fn1(TP + '::Shutdown')
     emptied = set()
-    for c in fsd.walk():
+    for c in [c for g_ in sd_scope for c in g_.walk()]:
         if c['k'] == 'CXXMemberCallExpr' and (c.get('q') or '').split('::')[-1] in ('Clear', 'SwapContents') and c.receiver() is not None:
             r_ = A.strip_casts(c.receiver())
             if r_['k'] == 'MemberExpr' and A.is_this_member(r_):
